@@ -219,6 +219,13 @@ theorem C08_closed_absorbing_step (s : AState) (op : Op) (c : ClosedQuiet s) (ho
       · apply closedQuiet_setW
         apply closedQuiet_handleSpend
         exact closedQuiet_of _ a ha hst hq
+  | spendT pos t h =>
+    simp only [step]
+    split
+    · exact c
+    · apply closedQuiet_setW
+      apply closedQuiet_handleSpend
+      exact closedQuiet_of _ a ha hst hq
   | spendDirect k h =>
     simp only [step]
     split
